@@ -188,12 +188,16 @@ func (rp *relyingParty) Logger(ctx context.Context) (logger *slog.Logger, ok boo
 // OAuth2 Config and possible configOptions
 // it will use the AuthURL and TokenURL set in config
 func NewRelyingPartyOAuth(config *oauth2.Config, options ...Option) (RelyingParty, error) {
+	// The relying party works on its own copy: the auth style is written into it below,
+	// and the caller's config must keep the values it had (including its own AuthStyle,
+	// which is the default unless the WithAuthStyle option is given).
+	cfg := *config
 	rp := &relyingParty{
-		oauthConfig:         config,
+		oauthConfig:         &cfg,
 		httpClient:          httphelper.DefaultHTTPClient,
 		oauth2Only:          true,
 		unauthorizedHandler: DefaultUnauthorizedHandler,
-		oauthAuthStyle:      oauth2.AuthStyleAutoDetect,
+		oauthAuthStyle:      cfg.Endpoint.AuthStyle,
 	}
 
 	for _, optFunc := range options {
